@@ -157,7 +157,7 @@ def np_unit_intervals(h):
     sc = pc[0][1]["scores"]
     lb, ub = conf.col("lower_bounds"), conf.col("upper_bounds")
     h.ensures("C04.scores_are_max_of_both_sides", z3.Implies(z3.And(*ca.facts()), sc.t == z3.If(lb.t >= ub.t, lb.t, ub.t)))
-    h.ensures("C04.quantile_level", pc[0][1]["q"].t == alpha.t * (1 + 1 / z3.ToReal(ca.n)))
+    h.ensures("C04.quantile_level", pc[0][1]["q"].t == alpha.t * (1 + 1 / z3.ToReal(ca.n)), why="the level of the correction quantile is alpha * (1 + 1 / number of calibration units) -- the units actually held out (one training row at least)", replay=lambda ev: {"target": "verif_replays:robust_correction_replay", "args": [], "check": "result['exc'] is None and result['ok']"})
     # the reported interval is the raw pair of bounds widened by the SAME correction on both sides
     c = z3.Real("population_correction")
     lraw = qs[0].predict(_holdout(h, t))
